@@ -384,4 +384,7 @@ let () =
   register "C19core" "locks" locks;
   register "C19core" "gate" gate;
   register "C19core" "coreseq" coreseq;
+  (* C19names: the same gate / coreseq cases with nearly colliding node names (node identity = index) *)
+  register "C19names" "gate" gate;
+  register "C19names" "coreseq" coreseq;
   register "C19stress" "stress" stress
